@@ -19,7 +19,13 @@ pub enum Case {
     /// bisection paths on long lists: [1, 2, .., len], every element, mid point and both outsides as query
     IndexLeftLong { len: usize },
     /// many nodes (9, 17, 33, ...): three supply orders, every node / mid / outside query
-    LongCurve { rule: u8, n: usize, vset: u8 },
+    LongCurve {
+        rule: u8,
+        n: usize,
+        vset: u8,
+        #[serde(default)]
+        grid: u8,
+    },
     /// history independence: look-ups on curve A, then on curve B whose nodes have the same count, first and last
     /// date but different interior dates (gaps permuted), then on A again - all on one thread
     Interleave { rule: u8, gaps_a: Vec<u8>, gaps_b: Vec<u8>, python_facing: bool },
@@ -202,10 +208,9 @@ pub fn check(case: &Case, idx: u64, acc: &mut Acc) {
             }
             acc.sample(cj);
         }
-        Case::LongCurve { rule, n, vset } => {
+        Case::LongCurve { rule, n, vset, grid } => {
             let rule = *rule as usize;
-            let gaps: Vec<u8> = (0..*n - 1).map(|i| ((i * 7 + 1) % 3) as u8).collect();
-            let xs = node_times(&gaps);
+            let xs = grid_times(*n, *grid, 7);
             let ys: Vec<f64> = (0..*n).map(|k| VSETS[*vset as usize][k % 6] * (1.0 - 0.002 * k as f64)).collect();
             let qs = queries(&xs);
             let ident: Vec<usize> = (0..*n).collect();
@@ -303,10 +308,12 @@ pub fn cases(tier: Tier) -> Vec<Case> {
     for len in 2..=tier.pick(48usize, 130usize) {
         out.push(Case::IndexLeftLong { len });
     }
-    for n in [7usize, 8, 9, 16, 17, 31, 32, 33, 64] {
+    for n in [7usize, 8, 9, 15, 16, 17, 24, 31, 32, 33, 64, 101, 130] {
         for rule in 0..5u8 {
             for vset in [0u8, 2] {
-                out.push(Case::LongCurve { rule, n, vset });
+                for grid in 0..5u8 {
+                    out.push(Case::LongCurve { rule, n, vset, grid });
+                }
             }
         }
     }
@@ -346,7 +353,7 @@ pub fn run(ctx: &Ctx, replay_file: Option<String>) -> ! {
          the two node values for linear / log-linear; identical (<= 4 ulp, same interval) for every supply \
          permutation. index_left directly: every non-decreasing list of length 2..9 (11) over {1..5} x every query in \
          {0.5, 1, ..., 5.5}, f64 and i64. Larger sizes on a menu: index_left on [1..len] for every len up to 48 (130) with every \
-         element / mid point as query; curves of 7, 8, 9, 16, 17, 31, 32, 33, 64 nodes in three supply orders. \
+         element / mid point as query; curves of 7, 8, 9, 15, 16, 17, 24, 31, 32, 33, 64, 101, 130 nodes in three supply orders on five node grids (uneven, evenly spaced, evenly spaced with displaced interior nodes, dense-then-sparse, sparse-then-dense). \
          History independence: look-ups on curve A, then on a curve B with the same node count, first and \
          last date but permuted gaps, then A and B again, on one thread. Non-trivial: queries strictly between nodes; \
          lists of length >= 5; interleaved pairs.",
